@@ -9,7 +9,7 @@ import numpy as np
 from hypothesis import strategies as st
 
 from vf import gens
-from vf.core import Result, lib
+from vf.core import Result, history_independent, lib
 from vf.dual import Dual
 
 ID = "C13"
@@ -176,6 +176,10 @@ def check_case(case) -> Result:
             tol = max(tol, 1e-6)  # single-precision argument: the function may work in single precision
         res.check("C13/dRs-dp", abs(got - want), tol * abs(want), f"dgor_dpressure_Standing(p={p!r} as {form}) = {got!r} AD of Rs={want!r} oil={o};")
 
+    # ---- each of them is a function of its arguments only -------------------------------------------------
+    lib("dgor_dpressure_Standing", history_independent, res, "C13/independent-of-call-history", O.dgor_dpressure_Standing, (T, p, api, sg, gor), [(T, p, api, sg, gor * 1.5), (T + 1e-3, 0.5 * p, api, sg, gor), (T, p * 1.5, api + 1, sg, gor)], "dgor_dpressure_Standing")
+    lib("db_o_dgor_Standing", history_independent, res, "C13/independent-of-call-history", O.db_o_dgor_Standing, (T, api, sg, gor), [(T, api, sg, gor * 1.5), (T + 1e-3, api + 1, sg, gor)], "db_o_dgor_Standing")
+    lib("b_water_McCain_dp", history_independent, res, "C13/independent-of-call-history", W.b_water_McCain_dp, (Tw, pw), [(Tw + 1e-3, pw), (Tw, 0.5 * pw)], "b_water_McCain_dp")
     # ---- all-pressure oil compressibility ----------------------------------------------------------
     tpc, ppc = case["tpc"], case["ppc"]
     if p / ppc > 30.0:
